@@ -848,7 +848,7 @@ def run(ctx):
     ctx.assume("whether Cassandra accepts clustering restrictions on statements that touch only static columns differs by release: accepted")
     rng = ctx.rng
     n_hist = ctx.scale(1500, 100000)
-    budget = 45 if ctx.quick else 330
+    budget = 35 if ctx.quick else 330
 
     def adapt(v):
         tn = type(v).__name__
